@@ -179,6 +179,8 @@ def main():
     src = open(os.path.join("/repo", rel)).read()
     tree = ast.parse(src)
     props = [p["id"] for p in PROPS if rel in p["anchors"]["files"]]
+    if "--checks" in opt:
+        props = opt["--checks"].split(",")
     if not props:
         base = os.path.dirname(rel)
         props = [p["id"] for p in PROPS if any(f.startswith(base) or base.startswith(os.path.dirname(f)) for f in p["anchors"]["files"])][:6]
